@@ -3,6 +3,7 @@ Proof: coq/Properties/C13.v.  Correspondence: quality_trim_index,
 nextseq_trim_index, QualityTrimmer, NextseqQualityTrimmer, parse_cutoffs vs the
 extracted Gallina model.  Oracle (search only): direct suffix sums."""
 import json
+import os
 import itertools
 
 from .. import core, buildimpl
@@ -298,6 +299,7 @@ def check(ctx):
             if r > 0.4:
                 b.qcut = rng.choice(["10", "20", "15,10", "5,0"])
             pc = P.PCfg(base=b)
+            minrep = rng.random() < 0.5   # the one-line report names the removed bases per mate too
             if b.qcut is not None and rng.random() < 0.5:
                 pc.qcut2 = rng.choice(["0", "25", "10,20"])
             if rng.random() < 0.3:
@@ -313,6 +315,11 @@ def check(ctx):
                 ctx.violation("system: implementation fails (paired)", {"argv": res["argv"], "pairs": [[list(x), list(y)] for x, y in pairs], "exit": res["exit"]})
                 continue
             why = PP.oracle_step_counts({"cfg": pc, "pairs": pairs, "impl": res}, d)
+            if not why and minrep:
+                from .. import sysprops as SP
+                md = os.path.join(d, "minrep")
+                os.makedirs(md, exist_ok=True)
+                why, _ = SP.minimal_report_rerun("paired", pc, pairs, md)
             if why:
                 ctx.violation("system: reported quality-trimmed bases per mate differ from the bases removed",
                               {"case": ["system-paired", pc.to_json()], "pairs": [[list(x), list(y)] for x, y in pairs], "why": why})
